@@ -8,3 +8,8 @@ P = program.load(quiet=True)
 ref = aliases.generate(P)
 json.dump(ref, open(aliases.REF, 'w'), indent=0, sort_keys=True)
 print('functions:', len(ref), 'names:', sum(len(v) for v in ref.values()))
+os.environ['VERIF_NO_NORMALISE'] = '1'
+from engine import normalise
+fr = normalise.generate(P)
+json.dump(fr, open(normalise.REF, 'w'), indent=0, sort_keys=True)
+print('function vocabulary:', len(fr))
